@@ -30,6 +30,8 @@
   removes it), true is delay > 0 (remove_* closes / sends the destroy at once and pops by id later: `popCircuit`, `popRelay`,
   `popExit`); on_created's remove_exit_socket(remove_now=True) is immediate in both modes.
 -/
+import Ipv8.C05.GenGuards
+
 namespace Ipv8.C05
 
 inductive Dir where
@@ -50,6 +52,17 @@ inductive Msg where
 def Msg.isExtend : Msg → Bool
   | .extend .. => true
   | _ => false
+
+/-- msg_id of the payload class (generated from payload.py); `other` carries its own -/
+def Msg.id : Msg → Nat
+  | .data .. => Gen.msgIdData
+  | .create .. => Gen.msgIdCreate
+  | .created .. => Gen.msgIdCreated
+  | .extend .. => Gen.msgIdExtend
+  | .extended .. => Gen.msgIdExtended
+  | .ping .. => Gen.msgIdPing
+  | .pong .. => Gen.msgIdPong
+  | .other mid => mid
 
 /-- NO_CRYPTO_PACKETS = [create, created] -/
 def Msg.noCrypto : Msg → Bool
@@ -146,8 +159,8 @@ structure Choice where
   new : Option (Nat × Nat × Nat × Nat) := none   -- on_extend: to_circuit_id, cache number+1, target address, target peer
   ext : Option (Nat × Nat) := none               -- send_extend: chosen peer, packet_identifier+1
 
-def maxRE : Nat := 8           -- TunnelSettings._max_relay_early
-def maxJoined : Nat := 100     -- TunnelSettings.max_joined_circuits
+def maxRE : Nat := Gen.maxRelayEarly     -- TunnelSettings._max_relay_early (generated)
+def maxJoined : Nat := Gen.maxJoined     -- TunnelSettings.max_joined_circuits (generated)
 
 /-! ### dict semantics (insertion ordered) -/
 def get {α : Type} : List (Nat × α) → Nat → Option α
@@ -255,8 +268,7 @@ def sendMsg (n : Node) (dst cid : Nat) (m : Msg) : Node × List (Out B) :=
 
 /-- relay_cell for the entry `nx = relays[c.cid]` -/
 def relayCell (n : Node) (c : Cell B) (nx : Relay) : Node × List (Out B) :=
-  if c.plaintext then (n, [])
-  else if c.relayEarly && decide (maxRE ≤ nx.reCount) then (n, [])
+  if Gen.relayRefused c.plaintext c.relayEarly (decide (maxRE ≤ nx.reCount)) then (n, [])
   else
     let body? : Option B :=
       match nx.dir with
@@ -270,9 +282,8 @@ def relayCell (n : Node) (c : Cell B) (nx : Relay) : Node × List (Out B) :=
 
 /-- on_create + should_join_circuit + join_circuit -/
 def onCreate (n : Node) (src cid ident pk dh : Nat) : Node × List (Out B) :=
-  if n.created.contains cid then (n, [])
-  else if n.inUse cid then (n, [])
-  else if maxJoined ≤ n.relays.length + n.exits.length then (n, [])
+  if Gen.createRefused true (n.created.contains cid) (has n.circuits cid) (has n.relays cid) (has n.exits cid) then (n, [])
+  else if Gen.joinRefused n.relays.length n.exits.length then (n, [])
   else
     let k := n.freshKey
     let n1 : Node := { n with created := n.created ++ [cid],
@@ -284,7 +295,7 @@ def popCreate : List CreateReq → Nat → Nat → Option (CreateReq × List Cre
   | [], _, _ => none
   | r :: t, num, cid =>
     -- the pending request with this identifier, provided the CREATED names the circuit id we created
-    if r.number = num ∧ r.toId = cid then some (r, t)
+    if Gen.createdMatches (decide (r.number = num)) (decide (r.toId = cid)) then some (r, t)
     else match popCreate t num cid with
       | some (x, t') => some (x, r :: t')
       | none => none
@@ -318,18 +329,22 @@ def onCreated (n : Node) (cid ident key authPk dhRef : Nat) (ch : Choice) : Node
   match popCreate n.creates ident cid with
   | some (rq, rest) =>
     let n1 : Node := { n with creates := rest }
-    match get n1.exits rq.fromId with
+    let e? := get n1.exits rq.fromId
+    -- generated guard: exit socket gone / not the hop object the extension was requested on (`is not`: peer, address and
+    -- session key identify the object) / the id reserved for the next hop was taken meanwhile
+    if Gen.createdRefused e?.isSome (decide (e?.map ExitE.hop = some rq.peer))
+        (has n1.circuits rq.toId) (has n1.relays rq.toId) (has n1.exits rq.toId) then (n1, [])
+    else
+    match e? with
     | none => (n1, [])
     | some e =>
-      if e.hop ≠ rq.peer then (n1, [])      -- `is not`: not the very hop object the extension was requested on (peer, address and session key identify it)
-      else if n1.inUse rq.toId then (n1, [])          -- the id reserved for the next hop was taken meanwhile
-      else
       let k := e.hop.key
-      let bw : Relay := ⟨rq.fromId, ⟨rq.peer.peer, rq.peer.addr, k⟩, .bwd, 1⟩
-      let fw : Relay := ⟨rq.toId, ⟨rq.toPeer.peer, rq.toPeer.addr, k⟩, .fwd, 1⟩
+      let bw : Relay := ⟨rq.fromId, ⟨rq.peer.peer, rq.peer.addr, k⟩, .bwd, Gen.relayEarlyInit⟩
+      let fw : Relay := ⟨rq.toId, ⟨rq.toPeer.peer, rq.toPeer.addr, k⟩, .fwd, Gen.relayEarlyInit⟩
       let n2 : Node := { n1 with relays := set (set n1.relays rq.toId bw) rq.fromId fw }
       let (n3, outs) := sendMsg A n2 bw.hop.addr rq.fromId (.extended rq.extIdent key authPk dhRef)
-      ({ n3 with exits := del n3.exits rq.fromId }, outs)
+      -- remove_exit_socket(from, remove_now=<generated>): at once, or like every other removal
+      ((if Gen.convertRemovesNow then { n3 with exits := del n3.exits rq.fromId } else rmExit n3 rq.fromId), outs)
   | none =>
     match get n.circuits cid with
     | none => (n, [])
@@ -370,10 +385,10 @@ def exitData (n : Node) (src cid dest tag : Nat) : Node × List (Out B) :=
   match get n.exits cid with
   | none => (n, [])
   | some e =>
-    if e.phase = 0 then
-      if src = e.hop.addr then
-        ({ n with exits := set n.exits cid { e with phase := 1, queue := pushQ e.queue (cid, dest, tag) } }, [])
-      else (n, [])
+    -- generated guard (unknown id is the `none` arm above): not enabled and the cell is not from the hop's address
+    if Gen.exitDataRefuses true (e.phase != 0) (decide (src = e.hop.addr)) then (n, [])
+    else if e.phase = 0 then
+      ({ n with exits := set n.exits cid { e with phase := 1, queue := pushQ e.queue (cid, dest, tag) } }, [])
     else if e.phase = 1 then
       ({ n with exits := set n.exits cid { e with queue := pushQ e.queue (cid, dest, tag) } }, [])
     else (n, [Out.exitOut cid dest tag])
@@ -392,13 +407,15 @@ def openStep (n : Node) (cid : Nat) : Node × List (Out B) :=
 
 /-- on_data -/
 def onData (n : Node) (src cid dest org tag : Nat) : Node × List (Out B) :=
-  let ours : Bool :=
+  let srcIsHop : Bool :=
     match get n.circuits cid with
     | some circ =>
       match circ.firstHop with
       | some fh => decide (src = fh.addr)
       | none => false
     | none => false
+  -- generated guard; `origin` (a non-empty address tuple) is always truthy
+  let ours : Bool := Gen.dataOurs (has n.circuits cid) true srcIsHop
   if ours then (n, [Out.rawIn cid org tag])
   else if dest = 0 then (n, [])
   else exitData n src cid dest tag
@@ -439,20 +456,19 @@ def processCell (n : Node) (src : Nat) (c : Cell B) (ch : Choice) : Node × List
       match A.parse b with
       | none => (n, [])
       | some m =>
-        if !c.relayEarly && m.isExtend then (n, [])
-        else if c.plaintext && !m.noCrypto then (n, [])
+        if Gen.cellRefused c.relayEarly m.isExtend false c.plaintext m.noCrypto true then (n, [])
         else handle A n src c.cid m ch
 
 /-- on_destroy, third branch: an own circuit, destroyed by its first hop -/
 def destroyCircuit (n : Node) (signer cid : Nat) : Node × List (Out B) :=
   match get n.circuits cid with
-  | some c => if (c.firstHop.map Hop.peer) = some signer then (rmCircuit n cid, []) else (n, [])
+  | some c => if Gen.destroyCircuit true (decide ((c.firstHop.map Hop.peer) = some signer)) then (rmCircuit n cid, []) else (n, [])
   | none => (n, [])
 
 /-- on_destroy, second branch: an exit socket, destroyed by the peer it was created for -/
 def destroyLocal (n : Node) (signer cid : Nat) : Node × List (Out B) :=
   match get n.exits cid with
-  | some e => if signer = e.hop.peer then (rmExit n cid, []) else destroyCircuit n signer cid
+  | some e => if Gen.destroyExit true (decide (signer = e.hop.peer)) then (rmExit n cid, []) else destroyCircuit n signer cid
   | none => destroyCircuit n signer cid
 
 /-- on_destroy, first branch: `relays[cid]` exists, its pair exists and the pair's hop (the side `cid` belongs to) signed -/
@@ -460,7 +476,7 @@ def viaRelay (n : Node) (signer cid : Nat) : Option Relay :=
   match get n.relays cid with
   | some nx =>
     match get n.relays nx.next with
-    | some pv => if signer = pv.hop.peer then some nx else none
+    | some pv => if Gen.destroyViaRelay true (decide (signer = pv.hop.peer)) then some nx else none
     | none => none
   | none => none
 
